@@ -458,6 +458,22 @@ def checkBufferSharing (m : Model) (res : List (String × CReq)) : PyM Unit := d
           let tp ← (match Py.dictGet? res n with | some r => pure r | none => throw PyErr.keyError)
           if !(← compatReq fp tp) then throw .runtimeError
       | _ => pure ()
+  -- repair D30: a constant that no operator reads (e.g. one that is only a graph output) must not share a buffer
+  -- that is rewritten for an operand tensor (tensor names are unique here, so names identify tensors)
+  let b2t := bufferToTensors m
+  let operands := b2t.flatMap (·.2)
+  for sg in m.subgraphs do
+    for t in sg.tensors do
+      if operands.contains t.name then pure ()
+      else
+        match m.buffers[t.buffer]? with
+        | some (some _) =>
+          for n in (Py.dictGet? b2t t.buffer).getD [] do
+            let sp ← (match Py.dictGet? res n with | some r => pure r | none => throw PyErr.keyError)
+            if (sp.consumers.getD []).any (fun c => match c.xfs.head? with
+                | some x => x == .quantTensor || x == .addDequant
+                | none => false) then throw .runtimeError
+        | _ => pure ()
 
 /-- `ParamsGenerator.generate_quantization_parameters`; `qsvs = none` models `None`.
     Returns the requests in dict order. (The caller's statistics are never touched: repair D5.) -/
